@@ -229,6 +229,9 @@ func interpretCrash(ci *crashInfo) sim.Violation {
 	if ci.TimedOut {
 		return sim.Violation{Oracle: "liveness", Key: "hang", Detail: "worker did not answer within the per-run watchdog and was killed"}
 	}
+	if i := strings.LastIndex(se, sim.MemoryLimitMarker); i >= 0 {
+		return sim.Violation{Oracle: "liveness", Key: "hang", Detail: "the run allocated without bound and the worker gave up: " + sim.Clip(se[i:], 300)}
+	}
 	if i := strings.LastIndex(se, "WARNING: DATA RACE"); i >= 0 {
 		rep := se[i:]
 		if j := strings.Index(rep, "=================="); j > 0 {
